@@ -8,11 +8,14 @@ class _Obj:
     def __init__(s, k): object.__setattr__(s, 'k', k)
     def __getattr__(s, a): return _OBJ(('attr', s.k, a))
     def __setattr__(s, a, v): pass
-    def __getitem__(s, i): return _OBJ(('item', s.k))
-    def __setitem__(s, i, v): pass
+    def __repr__(s): return 'O%r' % (s.k,)
+    def __getitem__(s, i): _LOG.append(('get', s.k, repr(i))); return _OBJ(('item', s.k))
+    def __setitem__(s, i, v): _LOG.append(('set', s.k, repr(i)))
     def __call__(s, f): return f
     def __hash__(s): return 1
+    def __bool__(s): return _TRUTH
     def __eq__(s, o): return True
+    seq = (1, 2)
     __iter__ = None          # not iterable (a __getitem__ that accepts every index would iterate for ever)
 ''' + "".join(f"    def __{n}__(s, o): return _OBJ(('{n}', s.k))\n    def __r{n}__(s, o): return _OBJ(('r{n}', s.k))\n"
               for n in ['add', 'sub', 'mul', 'truediv', 'floordiv', 'mod', 'pow', 'lshift', 'rshift', 'and', 'or', 'xor', 'matmul']) + '''
@@ -28,6 +31,7 @@ class Gen:
         self.r = rng
         self.k = itertools.count(1)
         self.names = itertools.count()
+        self.bound = []          # plain names the generated statements certainly bind
 
     def p(self):
         return f"__probe({next(self.k)})"
@@ -35,11 +39,19 @@ class Gen:
     def simple_target(self):
         c = self.r.randrange(5)
         if c == 0:
-            return f"n{next(self.names)}"
+            n = f"n{next(self.names)}"
+            self.bound.append(n)
+            return n
         if c == 1:
             return f"{self.p()}.a{self.r.randrange(3)}"
         if c == 2:
             return f"{self.p()}[{self.p()}]"
+        if c == 3 and self.r.random() < 0.35:
+            # an index that is a tuple holding slices (one element: the trailing comma matters), an ellipsis
+            lo = self.p() if self.r.random() < .7 else ""
+            hi = self.p() if self.r.random() < .7 else ""
+            return self.r.choice([f"{self.p()}[{lo}:{hi},]", f"{self.p()}[{lo}:{hi}, {self.p()}]", f"{self.p()}[..., {self.p()}]",
+                                  f"{self.p()}[{self.p()}, {lo}:{hi}:{self.p()}]", f"{self.p()}[({self.p()}, {self.p()})]"])
         if c == 3:
             lo = self.p() if self.r.random() < .7 else ""
             hi = self.p() if self.r.random() < .7 else ""
@@ -96,6 +108,7 @@ class Gen:
             return f"{t} {self.r.choice(OPS)}= {self.p()}"
         if c == 5:      # augmented, name target (bound first)
             n = f"n{next(self.names)}"
+            self.bound.append(n)
             return f"{n} = {self.p()}\n{n} {self.r.choice(OPS)}= {self.p()}"
         if c == 6:      # function definition: decorators, defaults, keyword-only defaults
             decos = "".join(f"@{self.p()}\n" for _ in range(self.r.randrange(0, 3)))
@@ -103,15 +116,24 @@ class Gen:
             dflt = [f"d{i}={self.p()}" for i in range(self.r.randrange(0, 3))]
             kwo = [(f"k{i}={self.p()}" if self.r.random() < .6 else f"k{i}") for i in range(self.r.randrange(0, 3))]
             sig = pos + dflt + (["*"] + kwo if kwo else [])
-            return f"{decos}def f{next(self.names)}({', '.join(sig)}):\n    return {self.p()}"
-        return self.r.choice([self.p(), f"({self.p()}, {self.p()})", f"{self.p()}({self.p()})" if False else f"[{self.p()}, {self.p()}]"])
+            fn = f"f{next(self.names)}"
+            self.bound.append(fn)
+            return f"{decos}def {fn}({', '.join(sig)}):\n    return {self.p()}"
+        # expression statements: probes, displays, and loads of every attribute / subscript / slice / slice-tuple shape
+        t = self.simple_target()
+        while t.startswith("n") and t[1:].isdigit():
+            self.bound.remove(t)
+            t = self.simple_target()
+        return self.r.choice([self.p(), f"({self.p()}, {self.p()})", f"[{self.p()}, {self.p()}]", t, t, f"{self.p()}({t})"])
 
     def program(self):
         return "\n".join(self.statement() for _ in range(self.r.randrange(1, 4))) + "\n"
 
     def program_at(self, placement):
         """the same statements at another kind of position, followed by a dump of the names they bound"""
-        body = "\n".join(self.statement() for _ in range(self.r.randrange(1, 4))) + "\n__dump(locals())\n"
+        body = "\n".join(self.statement() for _ in range(self.r.randrange(1, 4))) + "\n"
+        # the names bound by these statements, read back explicitly (locals() of a converted scope is not the script's)
+        body += "__dump({" + ", ".join(f"'{n}': {n}" for n in dict.fromkeys(self.bound)) + "})\n"
         ind = lambda t, n=1: "".join(("    " * n + l + "\n") for l in t.rstrip("\n").split("\n"))
         if placement == "function":
             return "def host():\n" + ind(body) + "host()\n"
@@ -134,26 +156,49 @@ class Gen:
         return body
 
 
+INDEX_SHAPES = ["{a}", "-1", "{a}:{b}", ":", "::{a}", "{a}:{b}:{c}", "{a}:{b},", ":,", "{a}:{b}, {c}", "{a}, {b}:{c}", "::{a}, ..., :{b}", "{a}, {b}", "({a}, {b})",
+                "({a},)", "{a},", "...", "..., {a}", "{a}:{b}, {c}:{d}", "None", "'k'", "{a}[{b}]", "{a}[{b}:{c}]", "*{a}.seq, {b}", "({a}, {b}):{c}", "{a} if {b} else {c}", "(yz_ := {a})"]
+
+
+def index_programs(probe="__probe"):
+    """every index shape as a load, a store, an augmented store and a for target (deterministic)"""
+    out = []
+    for sh in INDEX_SHAPES:
+        ids = iter(range(2, 20))
+        idx = sh.format(a=f"{probe}({next(ids)})", b=f"{probe}({next(ids)})", c=f"{probe}({next(ids)})", d=f"{probe}({next(ids)})")
+        out.append(f"{probe}(1)[{idx}]\n")
+        out.append(f"x_ = {probe}(1)[{idx}]\n")
+        if "yz_" not in sh and not sh.startswith("*"):
+            out.append(f"{probe}(1)[{idx}] = {probe}(30)\n")
+            out.append(f"{probe}(1)[{idx}] += {probe}(30)\n")
+            out.append(f"for {probe}(1)[{idx}] in [{probe}(30), {probe}(31)]:\n    pass\n")
+    return out
+
+
 PLACEMENTS = ["module", "function", "class", "method", "for-body", "while-body-in-function", "if-else", "function-in-loop", "after-guard", "class-in-function"]
 
 
-def run(code, mode, inplace):
+def run(code, mode, inplace, probe="__probe", dump="__dump", truth=True):
     log = []
     g = {}
     exec(PRELUDE, g)
     cls = g["_IObj"] if inplace else g["_Obj"]
     g["_OBJ"] = cls
+    g["_LOG"] = log
+    g["_TRUTH"] = truth       # truth value of every probe object: the oracle of the Lean trace
+
+    probe_name, dump_name = probe, dump
 
     def probe(k):
         log.append(k)
         return cls(k)
-    g["__probe"] = probe
+    g[probe_name] = probe
 
     def dump(ns):
         import re
         log.append(("names", sorted((k, getattr(v, "k", None) if isinstance(v, g["_Obj"]) else type(v).__name__)
                                     for k, v in ns.items() if re.fullmatch(r"n\d+|f\d+", k))))
-    g["__dump"] = dump
+    g[dump_name] = dump
     steps = [0]
 
     def tracer(frame, event, arg):
